@@ -2,7 +2,8 @@ package main
 
 // C20 — uploads are all-or-nothing under faults; upload IDs are never reused.
 // Fault enumeration on the real storage/app server (in-process, in-memory
-// sqlite): a fault-injecting fs.FS failing the n-th create/write/close, request
+// sqlite): a fault-injecting fs.FS failing the n-th create/write/close, a fault-injecting
+// driver.Connector under sqlite failing the n-th Begin/Exec/Query/Commit, request
 // bodies cut at every byte offset (with intact HTTP framing, and as a dropped
 // connection), unexpected form field, file without benchmark lines, rows the
 // database refuses, client Abort; after each run /search, /uploads and the file
@@ -11,6 +12,8 @@ package main
 import (
 	"bytes"
 	"context"
+	"database/sql"
+	"database/sql/driver"
 	"encoding/json"
 	"errors"
 	"fmt"
@@ -25,6 +28,7 @@ import (
 	"strings"
 	"sync"
 
+	sqlite3 "github.com/mattn/go-sqlite3"
 	"golang.org/x/perf/storage"
 	sapp "golang.org/x/perf/storage/app"
 	"golang.org/x/perf/storage/db"
@@ -46,9 +50,11 @@ type ffsFile struct {
 }
 
 type faultFS struct {
-	mu     sync.Mutex
-	files  map[string]*ffsFile
-	ops    int
+	mu      sync.Mutex
+	files   map[string]*ffsFile
+	creates int // NewWriter calls so far
+	open    int // writers not yet closed
+	ops     int
 	failAt int // index of the operation (create, write, close) that fails; -1 = none
 }
 
@@ -78,6 +84,8 @@ func (f *faultFS) NewWriter(_ context.Context, name string, _ map[string]string)
 		return nil, err
 	}
 	f.files[name] = &ffsFile{}
+	f.creates++
+	f.open++
 	return &ffsWriter{fs: f, name: name}, nil
 }
 
@@ -100,6 +108,7 @@ func (w *ffsWriter) Close() error {
 		return errors.New("already closed")
 	}
 	w.done = true
+	w.fs.open--
 	if err := w.fs.step(); err != nil {
 		delete(w.fs.files, w.name)
 		return err
@@ -111,15 +120,150 @@ func (w *ffsWriter) Close() error {
 func (w *ffsWriter) CloseWithError(error) error {
 	w.fs.mu.Lock()
 	defer w.fs.mu.Unlock()
+	if !w.done {
+		w.fs.open--
+	}
 	w.done = true
 	delete(w.fs.files, w.name)
 	return nil
+}
+
+// ---------- fault-injecting SQL connector (under sqlite, through the tagged
+// hook storage/db/verif_export.go) ----------
+// Counts Begin / Exec / Query / Commit in order and fails the chosen one
+// without letting it reach SQLite (a failing Commit rolls the transaction
+// back: "commit failed" means nothing was published).
+
+type faultSQL struct {
+	mu        sync.Mutex
+	ops       int
+	kinds     []string
+	during    []int    // per operation: number of file writers created so far if one is open, else -1
+	fs        *faultFS // to note which file is being written when an operation happens
+	failAt    int      // -1 = none
+	failEvery int // > 0: every failEvery-th operation fails (concurrency soak)
+	dsn       string
+	drv       *sqlite3.SQLiteDriver
+}
+
+func newFaultSQL(dsn string) *faultSQL {
+	return &faultSQL{failAt: -1, dsn: dsn, drv: &sqlite3.SQLiteDriver{ConnectHook: func(c *sqlite3.SQLiteConn) error {
+		_, err := c.Exec("PRAGMA foreign_keys = ON;", nil)
+		return err
+	}}}
+}
+
+func (f *faultSQL) step(kind string) error {
+	f.mu.Lock()
+	defer f.mu.Unlock()
+	n := f.ops
+	f.ops++
+	if len(f.kinds) < 4096 {
+		f.kinds = append(f.kinds, kind)
+		d := -1
+		if f.fs != nil {
+			f.fs.mu.Lock()
+			if f.fs.open > 0 {
+				d = f.fs.creates
+			}
+			f.fs.mu.Unlock()
+		}
+		f.during = append(f.during, d)
+	}
+	if n == f.failAt || (f.failEvery > 0 && n%f.failEvery == f.failEvery-1) {
+		return errInjectedSQL
+	}
+	return nil
+}
+
+var errInjectedSQL = errors.New("injected database fault")
+
+func (f *faultSQL) Connect(context.Context) (driver.Conn, error) {
+	c, err := f.drv.Open(f.dsn)
+	if err != nil {
+		return nil, err
+	}
+	return &fsqlConn{f, c}, nil
+}
+func (f *faultSQL) Driver() driver.Driver { return f.drv }
+
+type fsqlConn struct {
+	f *faultSQL
+	c driver.Conn
+}
+
+func (c *fsqlConn) Prepare(q string) (driver.Stmt, error) {
+	st, err := c.c.Prepare(q)
+	if err != nil {
+		return nil, err
+	}
+	return &fsqlStmt{c.f, st}, nil
+}
+func (c *fsqlConn) Close() error { return c.c.Close() }
+func (c *fsqlConn) Begin() (driver.Tx, error) {
+	if err := c.f.step("begin"); err != nil {
+		return nil, err
+	}
+	tx, err := c.c.Begin() //nolint:staticcheck
+	if err != nil {
+		return nil, err
+	}
+	return &fsqlTx{c.f, tx}, nil
+}
+
+type fsqlStmt struct {
+	f  *faultSQL
+	st driver.Stmt
+}
+
+func (s *fsqlStmt) Close() error  { return s.st.Close() }
+func (s *fsqlStmt) NumInput() int { return s.st.NumInput() }
+func (s *fsqlStmt) Exec(args []driver.Value) (driver.Result, error) {
+	if err := s.f.step("exec"); err != nil {
+		return nil, err
+	}
+	return s.st.Exec(args) //nolint:staticcheck
+}
+func (s *fsqlStmt) Query(args []driver.Value) (driver.Rows, error) {
+	if err := s.f.step("query"); err != nil {
+		return nil, err
+	}
+	return s.st.Query(args) //nolint:staticcheck
+}
+
+type fsqlTx struct {
+	f  *faultSQL
+	tx driver.Tx
+}
+
+func (t *fsqlTx) Commit() error {
+	if err := t.f.step("commit"); err != nil {
+		t.tx.Rollback()
+		return err
+	}
+	return t.tx.Commit()
+}
+func (t *fsqlTx) Rollback() error { return t.tx.Rollback() }
+
+// c20OpenDB opens the storage DB on sqlite through the fault connector.
+func c20OpenDB(dsn string, maxConns int) (*db.DB, *faultSQL, error) {
+	f := newFaultSQL(dsn)
+	sdb := sql.OpenDB(f)
+	if maxConns > 0 {
+		sdb.SetMaxOpenConns(maxConns)
+	}
+	d, err := db.VerifOpenWithDB(sdb, "sqlite3")
+	if err != nil {
+		return nil, nil, err
+	}
+	return d, f, nil
 }
 
 // ---------- in-process server ----------
 
 type c20Server struct {
 	db   *db.DB
+	sql  *faultSQL
 	fs   *faultFS
 	mux  *http.ServeMux
 	cl   *storage.Client
@@ -138,11 +282,13 @@ func (t inprocTransport) RoundTrip(req *http.Request) (*http.Response, error) {
 }
 
 func c20NewServer(user string) (*c20Server, error) {
-	d, err := db.OpenSQL("sqlite3", ":memory:")
+	// one connection: an in-memory sqlite database lives in its connection
+	d, fsql, err := c20OpenDB(":memory:", 1)
 	if err != nil {
 		return nil, err
 	}
-	s := &c20Server{db: d, fs: newFaultFS(-1), user: user}
+	s := &c20Server{db: d, sql: fsql, fs: newFaultFS(-1), user: user}
+	fsql.fs = s.fs
 	a := &sapp.App{DB: d, FS: s.fs, Auth: func(http.ResponseWriter, *http.Request) (string, error) { return s.user, nil }}
 	s.mux = http.NewServeMux()
 	a.RegisterOnMux(s.mux)
@@ -418,25 +564,62 @@ func c20Setup(pre []c20Req) (*c20Server, []hx.Sx, error) {
 
 // dryRun: fault-free run of the request on an identical server: number of
 // file-store operations and writes per file.
-func c20DryRun(in c20Input) (ops int, writes map[int]int, err error) {
+func c20DryRun(in c20Input) (ops int, writes map[int]int, sqlKinds []string, sqlDuring []int, err error) {
 	s, _, err := c20Setup(in.Pre)
 	if err != nil {
-		return 0, nil, err
+		return 0, nil, nil, nil, err
 	}
 	defer s.Close()
 	s.user = in.Req.User
 	before := s.fileSet()
 	ops0 := s.fs.ops
-	// keep files of a failing dry run visible: count writes before removal
+	creates0 := s.fs.creates
+	sql0 := s.sql.ops
 	full := c20Encode(in.Req.Parts)
 	_, id := s.post(bytes.NewReader(full))
 	if id == "" {
 		id, _ = s.idAndTime(before)
 	}
-	return s.fs.ops - ops0, s.writesOf(id), nil
+	sqlKinds = append(sqlKinds, s.sql.kinds[sql0:s.sql.ops]...)
+	for _, d := range s.sql.during[sql0:s.sql.ops] {
+		if d >= 0 {
+			d -= creates0 + 1 // index of the part being written
+		}
+		sqlDuring = append(sqlDuring, d)
+	}
+	return s.fs.ops - ops0, s.writesOf(id), sqlKinds, sqlDuring, nil
 }
 
-func c20Run(o *hx.Out, in c20Input, writes map[int]int) error {
+// c20SQLClass says which step of the model's oracle the n-th database
+// operation of a request is (4: a flush forced while a part is read): 0 none (beyond the last), 1 NewUpload (its ID
+// transaction begin/read/insert/commit and the begin of the records
+// transaction), 2 a flush (INSERT of buffered rows), 3 the final commit.
+func c20SQLClass(kinds []string, during []int, n int) (class, part int, err error) {
+	want := []string{"begin", "query", "exec", "commit", "begin"}
+	if len(kinds) < len(want) {
+		return 0, 0, fmt.Errorf("unexpected database operation sequence %v", kinds)
+	}
+	for i, k := range want {
+		if kinds[i] != k {
+			return 0, 0, fmt.Errorf("unexpected database operation sequence %v", kinds)
+		}
+	}
+	switch {
+	case n >= len(kinds):
+		return 0, 0, nil
+	case n < len(want):
+		return 1, 0, nil
+	case kinds[n] == "commit":
+		return 3, 0, nil
+	case kinds[n] == "exec" && during[n] >= 0:
+		return 4, during[n], nil // a flush forced by the argument limit while that part is read
+	case kinds[n] == "exec":
+		return 2, 0, nil
+	}
+	return 0, 0, fmt.Errorf("unexpected database operation %q at %d", kinds[n], n)
+}
+
+func c20Run(o *hx.Out, in c20Input, writes map[int]int, sqlKinds []string, sqlDuring []int) error {
 	s, presx, err := c20Setup(in.Pre)
 	if err != nil {
 		return err
@@ -451,6 +634,7 @@ func c20Run(o *hx.Out, in c20Input, writes map[int]int) error {
 	full := c20Encode(in.Req.Parts)
 	cut, drop := len(full), false
 	fsFault := -1
+	sqlClass, sqlPart := 0, 0
 	var ok bool
 	var id string
 	var items []c20Item
@@ -459,6 +643,12 @@ func c20Run(o *hx.Out, in c20Input, writes map[int]int) error {
 	case "fs":
 		fsFault = in.Fault.N
 		s.fs.failAt = s.fs.ops + in.Fault.N
+	case "sql":
+		var err error
+		if sqlClass, sqlPart, err = c20SQLClass(sqlKinds, sqlDuring, in.Fault.N); err != nil {
+			return err
+		}
+		s.sql.failAt = s.sql.ops + in.Fault.N
 	case "cut":
 		cut = in.Fault.N
 	case "drop":
@@ -488,6 +678,7 @@ func c20Run(o *hx.Out, in c20Input, writes map[int]int) error {
 		items, end = c20Oracle(full, cut, drop)
 	}
 	s.fs.failAt = -1
+	s.sql.failAt = -1
 	fid, tm := s.idAndTime(beforeFiles)
 	if id == "" {
 		id = fid
@@ -497,7 +688,7 @@ func c20Run(o *hx.Out, in c20Input, writes map[int]int) error {
 		return err
 	}
 	rq := hx.L(hx.Opt(id != "", hx.S(id)), hx.S(tm), hx.S(in.Req.User), c20ItemsSx(items, in.Req.User, writes), hx.I(end))
-	c := hx.L(hx.I(0), hx.List(presx), rq, hx.I(fsFault), beforeObs, afterObs)
+	c := hx.L(hx.I(0), hx.List(presx), rq, hx.I(fsFault), hx.I(sqlClass), hx.I(sqlPart), beforeObs, afterObs)
 	var tags []string
 	nfilesDone := 0
 	for _, x := range items {
@@ -545,17 +736,26 @@ func c20GenReq(r *hx.Rng, nfiles int) c20Req {
 	return rq
 }
 
-func c20Scenario(o *hx.Out, r *hx.Rng, allCuts bool, cutStride int) error {
+func c20Scenario(o *hx.Out, r *hx.Rng, allCuts bool, cutStride int, big bool) error {
 	in := c20Input{Kind: "upload"}
 	for j := r.Intn(3); j > 0; j-- {
 		in.Pre = append(in.Pre, c20GenReq(r, r.Range(1, 2)))
 	}
 	nfiles := r.Range(1, 3)
 	in.Req = c20GenReq(r, nfiles)
-	ops, writes, err := c20DryRun(in)
+	if big {
+		// enough distinct records to cross the 990-argument flush boundary
+		var sb strings.Builder
+		for i := 0; i < 70; i++ {
+			fmt.Fprintf(&sb, "BenchmarkBig/i=%d 1 %d ns/op\n", i, i%3)
+		}
+		in.Req.Parts[0].Body = sb.String()
+	}
+	ops, writes, sqlKinds, sqlDuring, err := c20DryRun(in)
 	if err != nil {
 		return err
 	}
+	o.Count(fmt.Sprintf("scenario.sqlops=%d", len(sqlKinds)))
 	run := func(f c20Fault, rq c20Req) error {
 		x := in
 		x.Req = rq
@@ -564,7 +764,7 @@ func c20Scenario(o *hx.Out, r *hx.Rng, allCuts bool, cutStride int) error {
 		if f.Kind != "fs" && f.Kind != "none" {
 			w = nil
 		}
-		return c20Run(o, x, w)
+		return c20Run(o, x, w, sqlKinds, sqlDuring)
 	}
 	if err := run(c20Fault{"none", 0}, in.Req); err != nil {
 		return err
@@ -574,6 +774,17 @@ func c20Scenario(o *hx.Out, r *hx.Rng, allCuts bool, cutStride int) error {
 		if err := run(c20Fault{"fs", n}, in.Req); err != nil {
 			return err
 		}
+	}
+	// every single database fault position: NewUpload's ID transaction (begin,
+	// read last, insert, commit), begin of the records transaction, every flush
+	// INSERT (also at the 990-argument boundary), the final commit, one beyond
+	for n := 0; n <= len(sqlKinds); n++ {
+		if err := run(c20Fault{"sql", n}, in.Req); err != nil {
+			return err
+		}
+	}
+	if big {
+		return nil
 	}
 	// protocol / content faults at every position
 	for j := 0; j <= nfiles; j++ {
@@ -629,9 +840,10 @@ type c20IDsIn struct {
 	Goroutines int    `json:"goroutines"`
 	Each       int    `json:"each"`
 	TxLock     string `json:"txlock"`
+	FailEvery  int    `json:"fail_every"`
 }
 
-func c20IDs(o *hx.Out, nseq, ngo, each int, txlock string) error {
+func c20IDs(o *hx.Out, nseq, ngo, each int, txlock string, failEvery int) error {
 	d, err := db.OpenSQL("sqlite3", ":memory:")
 	if err != nil {
 		return err
@@ -661,7 +873,18 @@ func c20IDs(o *hx.Out, nseq, ngo, each int, txlock string) error {
 	if txlock != "" {
 		dsn += "&_txlock=" + txlock
 	}
-	d, err = db.OpenSQL("sqlite3", dsn)
+	if failEvery > 0 {
+		// the same soak with every failEvery-th database operation failing
+		var fsql *faultSQL
+		d, fsql, err = c20OpenDB(dsn, 0)
+		if err == nil {
+			fsql.mu.Lock()
+			fsql.failEvery = failEvery
+			fsql.mu.Unlock()
+		}
+	} else {
+		d, err = db.OpenSQL("sqlite3", dsn)
+	}
 	if err != nil {
 		return err
 	}
@@ -701,28 +924,38 @@ func c20IDs(o *hx.Out, nseq, ngo, each int, txlock string) error {
 		errs += nerr[g]
 	}
 	o.Count("ids")
-	o.Extra[fmt.Sprintf("ids_concurrent_%s", txlock)] = map[string]int{"allocated": total, "errors": errs, "goroutines": ngo, "each": each}
-	c := hx.L(hx.I(1), hx.Z(day), hx.SList(seq), hx.List(persx))
-	o.Add(c, c20IDsIn{"ids", nseq, ngo, each, txlock}, fmt.Sprintf("i%d", o.Len()), true)
+	o.Extra[fmt.Sprintf("ids_concurrent_%s_failevery%d", txlock, failEvery)] = map[string]int{"allocated": total, "errors": errs, "goroutines": ngo, "each": each}
+	c := hx.L(hx.I(1), hx.Z(day), hx.SList(seq), hx.List(persx), hx.I(errs))
+	o.Add(c, c20IDsIn{"ids", nseq, ngo, each, txlock, failEvery}, fmt.Sprintf("i%d", o.Len()), true)
 	return nil
 }
 
 func genC20(o *hx.Out, r *hx.Rng, tier string, replay string) error {
 	log.SetOutput(io.Discard)
-	o.Rule = "per scenario (0-2 earlier uploads, a request of 1-3 files + commit field): the fault-free run; every file-store operation index failing in turn (create / each header write / separator / body writes / close, plus one index beyond); an unexpected field and a client Abort (storage.Client) at every position; each file in turn without benchmark lines, and with a label the database refuses; a request without files; the multipart body cut at byte offsets both with intact HTTP framing and as a dropped connection (every offset in the designated scenarios). After each run /search (upload>), /uploads and the file store are recorded. Plus DB.NewUpload 40 times sequentially and from 16 goroutines on one file-backed sqlite database (deferred and immediate transactions). non-trivial = every case"
-	nscen, nall := 6, 2
+	o.Rule = "per scenario (0-2 earlier uploads, a request of 1-3 files + commit field): the fault-free run; every file-store operation index failing in turn (create / each header write / separator / body writes / close, plus one index beyond); every database operation index failing in turn (NewUpload's begin/read/insert/commit, begin of the records transaction, each flush INSERT incl. the 990-argument boundary in the big scenarios, final commit, plus one beyond); an unexpected field and a client Abort (storage.Client) at every position; each file in turn without benchmark lines, and with a label the database refuses; a request without files; the multipart body cut at byte offsets both with intact HTTP framing and as a dropped connection (every offset in the designated scenarios). After each run /search (upload>), /uploads and the file store are recorded. Plus DB.NewUpload 40 times sequentially and from 16 goroutines on one file-backed sqlite database (deferred and immediate transactions), and again with every 11th / 7th database operation failing. non-trivial = every case"
+	nscen, nall, nbig := 6, 2, 1
 	each := 50
 	if tier == "thorough" {
-		nscen, nall = 60, 12
+		nscen, nall, nbig = 60, 12, 6
 		each = 200
 	}
 	for i := 0; i < nscen; i++ {
-		if err := c20Scenario(o, r.Split(), i < nall, 7); err != nil {
+		if err := c20Scenario(o, r.Split(), i < nall, 7, false); err != nil {
+			return err
+		}
+	}
+	for i := 0; i < nbig; i++ {
+		if err := c20Scenario(o, r.Split(), false, 7, true); err != nil {
 			return err
 		}
 	}
 	for _, lock := range []string{"", "immediate"} {
-		if err := c20IDs(o, 40, 16, each, lock); err != nil {
+		if err := c20IDs(o, 40, 16, each, lock, 0); err != nil {
+			return err
+		}
+	}
+	for _, k := range []int{11, 7} {
+		if err := c20IDs(o, 40, 16, each, "immediate", k); err != nil {
 			return err
 		}
 	}
